@@ -87,17 +87,35 @@ Interp3 == {ICfg(<<g, h, i>>, nm, s, <<PtsTiny(g), PtsTiny(h), PtsTiny(i)>>) :
               g \in G3set, h \in G3set, i \in G3set, nm \in (IF Big THEN {"affine", "idx", "cidx"} ELSE {"idx"}), s \in Schemes(3)}
 
 (* ---- uniform discretisations of [0, 1] for Resampling / linear_deform ---- *)
-UNodes(n, nob) == IF nob THEN [i \in 1..n |-> H(i - 1, n - 1)] ELSE [i \in 1..n |-> H(2 * i - 1, 2 * n)]
-Sp(n, nob) == [n |-> n, nob |-> nob]
+\* a discretisation of [0, b]: n nodes, per-side nodes_on_bdry (L, R), or explicit non-uniform nodes nu
+SpG(b, n, lf, rt, nu) == [b |-> b, n |-> n, L |-> lf, R |-> rt, nu |-> nu]
+Sp(n, nob) == SpG(S(1), n, nob, nob, <<>>)
+UNodesG(sp) ==
+  IF sp.nu # <<>> THEN sp.nu
+  ELSE LET n  == sp.n
+           g0 == IF sp.L THEN S(0) ELSE IF sp.R THEN QDiv(sp.b, S(2 * n - 1)) ELSE QDiv(sp.b, S(2 * n))
+           g1 == IF sp.R THEN sp.b ELSE IF sp.L THEN QSub(sp.b, QDiv(sp.b, S(2 * n - 1))) ELSE QSub(sp.b, QDiv(sp.b, S(2 * n)))
+       IN  [i \in 1..n |-> QAdd(g0, QMul(H(i - 1, n - 1), QSub(g1, g0)))]
 Spaces1 == {Sp(2, FALSE), Sp(4, FALSE), Sp(8, FALSE), Sp(3, TRUE), Sp(5, TRUE)}
-CvsOf(sp) == [k \in 1..Len(sp) |-> UNodes(sp[k].n, sp[k].nob)]
+CvsOf(sp) == [k \in 1..Len(sp) |-> UNodesG(sp[k])]
 RCfg(src, tgt, name, sch) == [src |-> src, tgt |-> tgt, cvs |-> CvsOf(src), tcvs |-> CvsOf(tgt),
                               f |-> DataOf(name, CvsOf(src)), fname |-> name, schemes |-> sch]
+\* EQUAL shapes, different node placement (domain [0, 3/2]: every placement below is dyadic)
+B32 == H(3, 2)
+EqA == {SpG(B32, 2, l, r, <<>>) : l \in BOOLEAN, r \in BOOLEAN}
+EqB == {SpG(B32, 3, TRUE, TRUE, <<>>), SpG(B32, 3, FALSE, FALSE, <<>>),
+        SpG(B32, 3, FALSE, FALSE, <<H(1, 4), H(1, 2), H(5, 4)>>), SpG(B32, 3, TRUE, TRUE, <<S(0), S(1), H(3, 2)>>)}
+EqA2 == {SpG(B32, 2, TRUE, FALSE, <<>>), SpG(B32, 2, FALSE, TRUE, <<>>)}
+EqB2 == {SpG(B32, 3, TRUE, TRUE, <<>>), SpG(B32, 3, FALSE, FALSE, <<H(1, 4), H(1, 2), H(5, 4)>>)}
+ResamplesEq == {RCfg(<<a>>, <<b>>, nm, s) : a \in EqA, b \in EqA, nm \in {"idx", "cidx"}, s \in Schemes(1)}
+               \cup {RCfg(<<a>>, <<b>>, nm, s) : a \in EqB, b \in EqB, nm \in {"idx", "cidx"}, s \in Schemes(1)}
+               \cup {RCfg(<<a1, a2>>, <<b1, b2>>, "idx", s) : a1 \in EqA2, b1 \in EqA2, a2 \in EqB2, b2 \in EqB2, s \in Schemes(2)}
 Spaces2 == {<<Sp(2, FALSE), Sp(3, TRUE)>>, <<Sp(4, FALSE), Sp(5, TRUE)>>, <<Sp(3, TRUE), Sp(4, FALSE)>>}
 Resamples == {RCfg(<<a>>, <<b>>, nm, s) : a \in Spaces1, b \in Spaces1, nm \in {"idx", "affine", "cidx"}, s \in Schemes(1)}
              \cup {RCfg(a, b, nm, s) : a \in Spaces2, b \in Spaces2, nm \in {"idx", "cidx"}, s \in Schemes(2)}
+             \cup ResamplesEq
 
-StepOf(sp) == IF sp.nob THEN H(1, sp.n - 1) ELSE H(1, sp.n)
+StepOf(sp) == IF sp.L THEN H(1, sp.n - 1) ELSE H(1, sp.n)      \* (unit interval, L = R)
 DispNames == {"zero", "half", "alt", "minus", "quarter"}
 DispAxis(name, sp, k, t) ==
   LET h == StepOf(sp)
